@@ -18,8 +18,8 @@ RULE = (
     "count; distinct = hash of all fields; non-trivial = at least 2 rows and 2 distinct treatment pairs"
 )
 ASSUMPTIONS = ["h5 files are compared through their loaded content, never byte-wise", "a change of the <U width of a string array on load is not a difference"]
-REQUIRED = {"roundtrips_checked": {"quick": 600, "thorough": 8000}, "superset_mapping_roundtrips": {"quick": 150, "thorough": 2000}, "space_roundtrips": {"quick": 100, "thorough": 1500}}
-N_CASES = {"quick": 960, "thorough": 12800}
+REQUIRED = {"roundtrips_checked": {"quick": 2000, "thorough": 15000}, "superset_mapping_roundtrips": {"quick": 500, "thorough": 4000}, "space_roundtrips": {"quick": 600, "thorough": 5000}}
+N_CASES = {"quick": 2400, "thorough": 19200}
 
 WEIRD_OBS = [float("nan"), float("inf"), float("-inf"), -0.0, 0.0, 5e-324, 1e-310, -1.0, 1.0, 0.1 + 0.2, 1e308, np.float64(np.nextafter(1.0, 2.0))]
 
